@@ -5,6 +5,11 @@ import json, subprocess
 props = [json.loads(l) for l in open('/verif/properties.jsonl')]
 
 CLAIMED = {
+ "C13": dict(level="exploration",
+   text="Model-based histories on the real subscription table (Subscribe, priming read/done, attribute/cluster/endpoint changes and bursts that overflow the 16-entry change table, events, reporter wake-ups, report read/end ok/failed/rejected, fabric removal, clock advances) issued in exactly the order im.rs issues the table calls (concurrent primings, strictly sequential reporter, purge only when nothing is reportable); the reference model keeps, per subscription, the changes made after its priming data was read and not yet delivered. After every step each owed change must still be discoverable by that subscription (not purged, not coalesced away), failed reports must not advance watermarks, reports never come before the minimum interval, the liveness deadline lies within the maximum interval, failing subscriptions expire one maximum interval after their last success; a quiet drain at the end of every history must deliver everything owed.",
+   note="Table level (L1) through cfg-gated wrappers; the end-to-end level (wire timing, retried report content, restart with persisted subscriptions) is added as a second binary (c13b) when built.",
+   technique="proptest stateful histories vs undelivered-change reference model on the real subscription table",
+   design="3/C13"),
  "C18": dict(level="exploration",
    text="Two real Btp ends joined by an in-harness GATT pipe exchange generated messages (0..max length, every negotiated segment size and window, sequence wrap) under generated schedules of send/poll/receive/clock steps, and under verbatim copies of the in-tree driver loops on the virtual clock; an independent header parser on the pipe checks delivery (intact, once, in order), consecutive sequence numbers, window limits, last-slot rule, segment sizes and the acknowledgement deadline. A hostile mode drives one real Btp end with model-relative faulty segments (wrong sequence, overrun, bogus ack, begin+continue, length faults, data before handshake, arbitrary handshakes, raw bytes): must-refuse classes are refused, nothing is delivered that was not framed, no panic or overflow.",
    note="Open known finding: the handshake version selection (wrong nibble mask) cannot be repaired without editing the repository's tests. Segment shapes the statement does not classify (non-full non-final segments, reserved flags, repeated acks) only get the no-panic and data-integrity checks.",
